@@ -25,9 +25,7 @@ def main():
         if f.parent is not None or '.tests.' in q:
             continue
         sig = localnames.signatures(f.node)
-        # only unambiguous entries are useful
-        if sig:
-            table[q] = sig
+        table[q] = sig
     with open(localnames.TABLE, 'w') as fh:
         json.dump(table, fh, indent=0, sort_keys=True)
     print('%d functions, %d locals' % (
